@@ -82,7 +82,7 @@ CHECKS = {
    note="edits of valid encodings and short strings, not all Unicode strings; the sweep runs in a child process, an abort (stack overflow, allocation failure) is pinned to its input and reported as a violation",
    tech="bounded-exhaustive enumeration of single / double edits at every offset, executed on the implementation under a panic and hang guard"),
  "C15": dict(engine="seqmc", cat="model_checking", ref="5 (C15)",
-   text="Sequential half: all histories with positive quantities, statistics counters in the state key; after every transition the four counters must equal the events derived from the implementation's own return values. Concurrent half: 2-3 thread programs with the eight statistics atomics as scheduling points, every interleaving within the bound, counters at quiescence vs the events the threads observed.",
+   text="Sequential half: all histories with positive quantities, statistics counters in the state key; after every transition the four counters must equal the events derived from the implementation's own return values. Concurrent half: 2-3 thread programs with the eight statistics atomics as scheduling points, every interleaving within the bound, counters at quiescence vs the events the threads observed; the statistics object on its own from 2-3 threads (all interleavings, plus 'victim' programs where one thread is preempted at every step against up to 24 complete calls of the other); long sweeps (one call with 7*10^4..1.2*10^6 fills).",
    note="orders carry the level's price (the property's premise); SC interleavings",
    tech="explicit-state BFS on the implementation + stateless model checking under a controlled scheduler, counters vs observed events"),
 }
